@@ -264,6 +264,21 @@ Theorem model_passes_C08_clause_8 :
 Proof. exact model_passes_C08_clause_8_lemma. Qed.
 Print Assumptions model_passes_C08_clause_8.
 
+(** clauses 2 and 6 compare the observation before a step with the one after it.  From ANY state
+    [s] (reachable or not), for one step [st] of the model, [obs_step univ c s st] being what the
+    driver would print after it (result code, new context id, callbacks logged by the step, state):
+    2 — a step the model rejects leaves the whole observation unchanged; 6 — a pause / start /
+    kill / update that succeeds was sent by the consumer of a context that is not module-owned
+    (messages), or, through the keeper, on a module-owned context by its consumer *)
+Theorem model_passes_C08_clauses_2_6 :
+  forall c s st univ seen fired tr sc pcode pnc pcb,
+    let k := holds_C08 seen fired tr sc (obs_of univ pcode pnc pcb s) st (obs_step univ c s st) in
+    k <> 2 /\ k <> 6.
+Proof. exact (fun c s st univ seen fired tr sc pcode pnc pcb =>
+  conj (model_passes_C08_clause_2_lemma c s st univ seen fired tr sc pcode pnc pcb)
+       (model_passes_C08_clause_6_lemma c s st univ seen fired tr sc pcode pnc pcb)). Qed.
+Print Assumptions model_passes_C08_clauses_2_6.
+
 (** ** non-vacuity: a history in which one request is answered and its sibling expires; a
     late answer to the expired one and a duplicate answer to the answered one are rejected;
     the one-shot context is removed; a repeated context (frequency 3, total 2) starts its
